@@ -77,7 +77,8 @@ func (b *RawBytes) UnmarshalJSON(data []byte) error {
 
 // trickyString favours characters that matter to a tokenizer.
 func trickyString(t *rapid.T) string {
-	parts := []string{"]", "}", "[", "{", "\"", "\\", ",", ":", "é", "€", "😀", "\\u00e9", "a", " ", "\n", "/", "\\\"", "]}", "\"]", "null", "�"}
+	parts := []string{"]", "}", "[", "{", "\"", "\\", ",", ":", "é", "€", "😀", "\\u00e9", "a", " ", "\n", "/", "\\\"", "]}", "\"]", "null", "�",
+		"$HOME", "${PATH}", "${VERIF_NL}", "$1", "//", "/*", "*/", "#", "%s", "<!--"}
 	n := drawInt(t, 1, 5, "tn")
 	var sb strings.Builder
 	for i := 0; i < n; i++ {
@@ -486,7 +487,22 @@ func checkDoc(root V, st *Stats) error {
 	// (c) ill-formed UTF-8 strictly between the root brackets
 	// documents longer than 80 bytes: every k-th position, k = ceil(len/80), offset by len mod k
 	stride := (len(text) + 79) / 80
-	for p := 1 + len(text)%stride; p < len(text); p += stride {
+	for p, nth := 1+len(text)%stride, 0; p < len(text); p, nth = p+stride, nth+1 {
+		// one decorated insertion per position: the ill-formed sequence inside something a tolerant
+		// pre-pass might skip (comment syntaxes, a quoted run); ill-formed UTF-8 is rejected wherever it stands
+		deco := [][2]string{{"/*", "*/"}, {"//", "\n"}, {"#", "\n"}, {"<!--", "-->"}, {"/* \"", "\" */"}, {"\ufeff", ""}}[nth%6]
+		bad := badUTF8[nth%len(badUTF8)]
+		if mut := text[:p] + deco[0] + bad.seq + deco[1] + text[p:]; !utf8.ValidString(mut) {
+			o, err := parse(mut)
+			if err != nil {
+				return errf("%v on %q", err, clip(mut, 300))
+			}
+			if o.c != nil {
+				got, _ := Snap(o.c)
+				return errf("document with ill-formed UTF-8 (%s inside %q...%q at byte %d) accepted: %q parsed as %s", bad.name, deco[0], deco[1], p, clip(mut, 300), got.Show())
+			}
+			st.Count("doc.injection_decorated")
+		}
 		for _, bad := range badUTF8 {
 			for sub := 0; sub < 2; sub++ {
 				var mut string
@@ -608,6 +624,6 @@ func CheckC04(c *C04Case, st *Stats) error {
 
 func init() {
 	Register("C04",
-		"two modes. bytes: random bytes (<=64), token soup over JSON punctuation/literals/escapes/invalid bytes (<=60 tokens), and 1-3 structural mutations (delete/duplicate/flip/transpose/splice/truncate) of serialised documents; each input goes twice through ParseList and ParseObject and once through ParseFile under a termination watchdog: no panic, exactly one of (container, error), same outcome twice, ParseFile == ParseObject, unreadable paths rejected. doc: for a generated tree, EVERY proper byte prefix of String() must be rejected and the whole accepted, and every catalogue sequence of ill-formed UTF-8 (14 kinds) inserted at / substituted for every byte position strictly inside the root brackets (documents over 80 bytes: every ceil(len/80)-th position) must be rejected. Non-trivial = bytes input with a root bracket followed by >=2 bytes; doc with nesting >=2 and a string/key containing a bracket, quote or backslash. Distinct = distinct FNV-64a hash of the case JSON.",
+		"two modes. bytes: random bytes (<=64), token soup over JSON punctuation/literals/escapes/invalid bytes (<=60 tokens), and 1-3 structural mutations (delete/duplicate/flip/transpose/splice/truncate) of serialised documents; each input goes twice through ParseList and ParseObject and once through ParseFile under a termination watchdog: no panic, exactly one of (container, error), same outcome twice, ParseFile == ParseObject, unreadable paths rejected. doc: for a generated tree, EVERY proper byte prefix of String() must be rejected and the whole accepted, and every catalogue sequence of ill-formed UTF-8 (14 kinds) inserted at / substituted for every byte position strictly inside the root brackets (documents over 80 bytes: every ceil(len/80)-th position) must be rejected, also when it stands inside comment-like decoration (/* */, //, #, <!-- -->). Non-trivial = bytes input with a root bracket followed by >=2 bytes; doc with nesting >=2 and a string/key containing a bracket, quote or backslash. Distinct = distinct FNV-64a hash of the case JSON.",
 		GenC04, CheckC04)
 }
